@@ -13,6 +13,7 @@ tree stream and its monitors (see docs/C10.md).
 import Mistral.Lemmas.TreePause
 import Mistral.Lemmas.TreeProp
 import Mistral.Lemmas.TreeFollow
+import Mistral.Lemmas.TreeResume
 
 namespace Mistral.Props.C10Tree
 open Mistral Mistral.Tree
@@ -227,5 +228,27 @@ theorem pause_calling_task (c : Cfg) (evs : List Event) (a : Nat) (e : Exec)
 example : (taskState (step chain3 (run chain3 chain3Up) (.pause 0)) 0,
            taskState (step chain3 (run chain3 chain3Up) (.pause 0)) 1) = (some .PAUSED, some .PAUSED) := by
   decide +kernel
+
+
+/-! ### resume -/
+
+/-- For EVERY tree and state (no reachability needed): a resume request never raises and never pauses anything —
+    an execution that is not PAUSED before the transaction (with everything it propagates to) is not PAUSED after
+    it. -/
+theorem resume_pauses_nothing (c : Cfg) (w : World) (a : Nat) : NP w (step c w (.resume a)) := by
+  obtain ⟨h1, h2⟩ := (resume_np c (fuelOf w)).1 w a
+  simp only [step, h2, Bool.false_eq_true, if_false]
+  exact h1
+
+/-- ... and the resumed execution leaves PAUSED: after a resume request for a PAUSED execution it is RUNNING, or
+    has completed in the same transaction (all its tasks had finished while it was paused). -/
+theorem resume_acknowledged_tree (c : Cfg) (w : World) (a : Nat) (e : Exec) (he : w.execs[a]? = some e)
+    (hp : e.state = .PAUSED) :
+    ∃ e', (step c w (.resume a)).execs[a]? = some e' ∧ e'.state ≠ .PAUSED := by
+  have h2 := ((resume_np c (fuelOf w)).1 w a).2
+  simp only [step, h2, Bool.false_eq_true, if_false]
+  have hf : fuelOf w = (4 * w.execs.length + 7) + 1 := rfl
+  rw [hf]
+  exact resume_leaves_paused c _ w a e he (by rw [hp]; decide)
 
 end Mistral.Props.C10Tree
